@@ -172,7 +172,7 @@ func (s *vwStation) ingest(msg []byte) (string, string, []*DecoyRegistration) {
 		before := atomic.LoadInt32(&s.dt.calls)
 		_ = before
 		rm.ingestRegistration(reg)
-		for _, v := range rm.registeredDecoys.getRegistrations(reg.PhantomIp) {
+		for _, v := range vMapAs[*DecoyRegistration](rm.registeredDecoys.getRegistrations(reg.PhantomIp)) {
 			if v == reg {
 				added = append(added, reg)
 				if reg.Transport == pb.TransportType_DTLS {
